@@ -356,6 +356,13 @@ pub fn compose(j: &Session, list: &[String], list_label: &str, kb: &KbItem, exp_
         (Out::Err { .. }, Verdict::MustReject) => {
             l.outcome("must_reject_rejected");
             l.nontrivial += 1;
+            // from the state this rejection left behind, the same credential without any key-binding
+            // expectation and with its honest list must still be accepted
+            let honest = Parts { jwt: j.cred.parts.jwt.clone(), disclosures: j.s_small.clone(), kb: None }.serialize(fmt);
+            let again = drive::verify(&honest, keys::issuer_dec(j.cred.cfg.alg, 0), None, None, fmt);
+            if !again.is_ok() {
+                l.violation(mk(if again.is_panic() { "panic" } else { "honest_rejected_after_attack" }, "c04_control_after_rejection".into(), format!("after rejecting kb={} on {} / {}: honest presentation gives {}", kb.label, j.name, list_label, again.describe())));
+            }
         }
         (Out::Err { .. }, Verdict::Either) => l.outcome("either_rejected"),
     }
